@@ -25,7 +25,9 @@ RULE = ('waveform recipes (nesting <= 4) over all classes (table hold/linear/jum
         '"end" (on + t=duration); plus malformed grids (unsorted, negative, beyond the end, unknown channel, empty), '
         'malformed recipes (channel clashes, duration mismatches, bad tables, count 0), equality/hash pairs and call '
         'histories (same array object reused, output array supplied or not, interleaved channels, times changed in '
-        'place).  Non-trivial = the recipe has a composite node (not a bare leaf); distinct = canonical JSON.')
+        'place; shadowed linear outputs after a parallel constant).  Decimal stream (kind dec): durations k/10, k/3, k/5, k/6, k/7, k/100 '
+        '(exact TimeType), repetitions 3..10, grid on every junction as correctly rounded doubles, tolerance 2^-30.  '
+        'Non-trivial = the recipe has a composite node (not a bare leaf); distinct = canonical JSON.')
 TRUSTED = [
     'Coq 8.16.1 kernel + vm_compute (no native_compute)',
     'numpy: searchsorted / slicing / views / elementwise arithmetic behave as modelled (lists, counts, slices); binary64 '
@@ -42,18 +44,25 @@ ASSUMPTIONS = [
     'repetition counts are small positive integers in generated cases (the theorems are for all counts)',
 ]
 MANIFEST = {
-    'level_text': 'Proof: 38 unbounded theorems over an executable Coq model of waveforms.py: vectorised sampler = pointwise '
+    'level_text': 'Proof: 52 unbounded theorems over an executable Coq model of waveforms.py: vectorised sampler = pointwise '
                   'meaning on every sorted grid (all 11 classes); constant_value sound on [0,duration) for all classes; '
                   '__eq__ => same behaviour; reversed()/double reversal laws; totality REFUTED on the unchanged code '
                   '(sequence/repetition at t=duration, reversal around them, chained parallel+linear KeyError) and proved under '
-                  'executable guards; constant-folding branches of from_mapping/from_repetition_count/from_functor/'
-                  'from_to_reverse/from_sequence (incl. flattening)/from_operator/from_table and from_parallel sample like the plain composite; '
-                  'history independence (no transforming nodes: any history; linear-free transformations: arrays not mutated); code meaning = DESIGN 4.4 denotation for leaf-only reversal. _partial (only tested through the denotational oracle): '
-                  'table de-duplication (refuted for a triple final time point), from_transformation with linear parts, get_subset in general, histories with '
-                  'linear transformations. The model (incl. a state machine for the TransformingWaveform cache) is tied to /repo by '
-                  'an exact correspondence check and an independent denotation (DESIGN 4.4) on generated waveform trees.',
+                  'executable guards; every optimising constructor proved to sample like the plain composite: from_mapping, '
+                  'from_repetition_count, from_functor, from_to_reverse, from_sequence (incl. flattening), from_operator, '
+                  'from_parallel, from_transformation for ALL transformations (restricted = complete evaluation of linear '
+                  'chains; guards: constructor shape, no KeyError), from_table incl. de-duplication (every table on '
+                  '[0,duration), closed interval under the guard final_triple = false, the refuted class); history independence '
+                  '(no transforming nodes: any history; any transformations: arrays not mutated, no linear output shadowing a '
+                  'forwarded channel - refuted without that guard); code meaning = DESIGN 4.4 denotation for leaf-only reversal '
+                  'incl. transformations. Not proved (only tested through the denotational oracle): the composed statement over '
+                  'construction recipes and get_subset in general (both refuted unguarded at t=0 below reversed sequences), '
+                  'mirror law against the denotation away from junctions. The model (incl. a state machine for the '
+                  'TransformingWaveform cache) is tied to /repo by an exact correspondence check, an independent denotation '
+                  '(DESIGN 4.4) on generated waveform trees, and a decimal-duration stream compared under tolerance 2^-30.',
     'level_note': 'Trusted: Coq kernel, numpy/sympy semantics as modelled, harness (py_build, printers), Python hash. Float '
-                  'rounding not modelled (dyadic inputs). 6 known findings (2 more were repaired in /repo).',
+                  'rounding not modelled (dyadic inputs exact; decimal stream under a declared tolerance, counted apart). '
+                  '8 known findings (2 more were repaired in /repo in round 1).',
     'technique': 'Coq proof over a hand-written model + correspondence check + denotational oracle',
     'design_ref': 'DESIGN.md §5 C08, §4.3, §4.4, Appendix C, D4',
 }
